@@ -126,6 +126,7 @@ static void x86_p2(BaseEmitter* em, CodeHolder& code, unsigned k, ErrAcc& E) {
   E(x->mov(x86::rbx, uint64_t(0x0123456789ABCDEFull) + k));
   E(x->call(imm(uint64_t(0x00007F1200000000ull) + 0x1000 * k)));
   E(x->call(imm(uint64_t(0x00007F1300000040ull))));
+  E(x->call(imm(uint64_t(0x00007F1000100000ull))));      // within rel32 reach of the base address, if the holder knows one
   E(x->test(x86::eax, x86::eax));
   E(x->jz(tail));
   E(x->vmovdqu(x86::ymm2, x86::ptr(ro)));
@@ -684,6 +685,7 @@ struct Cfg {
   int logk = 1;            // kind of logger objects: 1 StringLogger, 2 FileLogger(/dev/null)
   bool validate = false;
   bool perturb = false;
+  bool base = true;        // init(env, base) with the fixed base address; false = JIT style init(env), base only known to relocate_to_base()
   std::vector<int> kinds{kAsm, kBuilder, kCompiler};
 };
 
@@ -794,7 +796,7 @@ struct Exec {
     measure_fresh();
     w.beginObj().kv("e", "Reset");
     w.key("cfg").beginObj().kv("arch", cfg.arch == Arch::kX64 ? "x64" : "a64").kv("archid", int(cfg.arch)).kv("static", cfg.static_arena).kv("logk", cfg.logk)
-      .kv("validate", cfg.validate).kv("perturb", cfg.perturb).endObj();
+      .kv("validate", cfg.validate).kv("perturb", cfg.perturb).kv("base", cfg.base).endObj();
     w.key("kinds").beginArr();
     for (int k : cfg.kinds) w.val(kind_name(k));
     w.endArr();
@@ -828,7 +830,7 @@ struct Exec {
   void measure_fresh() {
     CodeHolder c;
     counts_of(c, fresh.h_uninit);
-    c.init(env(), kBase);
+    if (cfg.base) c.init(env(), kBase); else c.init(env());
     counts_of(c, fresh.h_init);
     for (int k = 0; k < 3; k++) {
       BaseEmitter* e = new_emitter(cfg.arch, k, false);
@@ -924,7 +926,7 @@ struct Exec {
   void tail(Error err) { w.kv("r", err == Error::kOk ? "Ok" : "Err").kv("code", unsigned(err)); proj(); w.endObj().emit(out); fflush(out); }
 
   // ---- actions ----
-  void a_init(int h) { head("Init"); w.kv("h", h); Error e = holder[h - 1]->init(env(), kBase); if (e == Error::kOk) gens[h - 1].clear(); tail(e); }
+  void a_init(int h) { head("Init"); w.kv("h", h); Error e = cfg.base ? holder[h - 1]->init(env(), kBase) : holder[h - 1]->init(env()); if (e == Error::kOk) gens[h - 1].clear(); tail(e); }
   void a_reset(int h, bool hard) {
     head("ResetH"); w.kv("h", h).kv("hard", hard);
     holder[h - 1]->reset(hard ? ResetPolicy::kHard : ResetPolicy::kSoft);
@@ -965,7 +967,7 @@ struct Exec {
     Digest d;
     ErrAcc E;
     bool sealed = false;
-    E(c.init(env(), kBase));
+    E(cfg.base ? c.init(env(), kBase) : c.init(env()));
     for (auto& kp : seq) {
       if (kp.first < 0) { E(seal(c)); sealed = true; continue; }
       if (kp.second == 6) {
@@ -1058,6 +1060,7 @@ static Cfg cfg_of(const vj::Value& v) {
   c.logk = v.has("logk") ? int(v["logk"].i()) : 1;
   c.validate = v["validate"].i() != 0;
   c.perturb = v["perturb"].i() != 0;
+  c.base = v.has("base") ? v["base"].i() != 0 : true;
   if (v.has("kinds")) { c.kinds.clear(); for (auto& k : v["kinds"].arr) c.kinds.push_back(kind_of(k.s())); }
   return c;
 }
@@ -1185,6 +1188,7 @@ int main(int argc, char** argv) {
       c.logk = 1 + int(r.below(2));
       c.validate = r.chance(1, 2);
       c.perturb = r.chance(1, 2);
+      c.base = getenv("LC_FIXED_BASE") ? true : !r.chance(1, 3);
       static const int ks[4][3] = {{kAsm, kBuilder, kCompiler}, {kCompiler, kCompiler, kAsm}, {kBuilder, kCompiler, kBuilder}, {kCompiler, kAsm, kCompiler}};
       int pick = int(r.below(4));
       c.kinds = {ks[pick][0], ks[pick][1], ks[pick][2]};
